@@ -749,7 +749,7 @@ fn token_account_bytes(mint: [u8; 32], owner: [u8; 32], amount: u64, state: u8) 
 }
 
 /// mint_position_token_and_remove_authority (SPL Token positions) with `invoke_signed` recorded: the CPIs requested are exactly [mint_to(amount = 1) into the position token account, set_authority(MintTokens, None) on the position mint], in that order, both signed by the whirlpool PDA; Ok ⇔ both CPIs succeed; a failed mint_to stops before set_authority. Symbolic whirlpool / mint / token account keys and CPI outcomes.
-// @verif prop=C18 tier=quick timeout=300
+// @verif prop=C18 tier=thorough timeout=900
 #[kani::proof]
 #[kani::unwind(40)]
 #[kani::stub(alloc::fmt::format, stub_format)]
@@ -924,6 +924,36 @@ mod pino {
 const TOKEN_ACCOUNT_STATE: usize = 108;
 const FROZEN: u8 = 2;
 
+/// lock predicate, both runtimes on the same 165 token-account bytes (all symbolic): whenever Anchor accepts the account, is_locked_position == pino_is_locked_position == (account state byte is Frozen)
+// @verif prop=C18 tier=quick timeout=300
+#[kani::proof]
+#[kani::unwind(40)]
+#[kani::stub(alloc::fmt::format, stub_format)]
+#[kani::stub(<anchor_lang::error::Error as core::convert::From<::whirlpool::errors::ErrorCode>>::from, stub_err_from_code)]
+#[kani::stub(<anchor_lang::error::Error as core::convert::From<anchor_lang::error::ErrorCode>>::from, stub_err_from_anchor_code)]
+fn c18_is_locked_position_equiv() {
+    use anchor_lang::prelude::InterfaceAccount;
+    use anchor_spl::token_interface::TokenAccount;
+    use ::whirlpool::pinocchio::state::token::MemoryMappedTokenAccount;
+    let bytes: [u8; 165] = kani::any();
+    let mut data = bytes;
+    let key = Pubkey::new_from_array([9u8; 32]);
+    let t22 = anchor_spl::token_2022::ID;
+    let mut lamports = 1u64;
+    let ai = AccountInfo::new(&key, false, false, &mut lamports, &mut data[..], &t22, false, 0);
+    let r: anchor_lang::Result<InterfaceAccount<TokenAccount>> = InterfaceAccount::try_from(&ai);
+    kani::cover!(r.is_ok() && bytes[TOKEN_ACCOUNT_STATE] == FROZEN, "a frozen account loads");
+    kani::cover!(r.is_ok() && bytes[TOKEN_ACCOUNT_STATE] != FROZEN, "an unfrozen account loads");
+    if let Ok(acc) = &r {
+        let a = ::whirlpool::util::is_locked_position(acc);
+        let view = unsafe { &*(bytes.as_ptr() as *const MemoryMappedTokenAccount) };
+        let p = ::whirlpool::pinocchio::ported::util_shared::pino_is_locked_position(view);
+        assert!(a == (bytes[TOKEN_ACCOUNT_STATE] == FROZEN));
+        assert!(p == a);
+    }
+    core::mem::forget(r);
+}
+
 /// Pinocchio decrease_liquidity prefix: if the position token account is frozen (locked position) the handler never gets past its checks (the Clock sysvar call that starts the core logic is not reached). All 11 accounts' keys/owners/flags and the whirlpool, position and token account bytes symbolic.
 // @verif prop=C18 tier=quick timeout=300
 #[kani::proof]
@@ -961,4 +991,529 @@ fn c18_pino_increase_allows_locked() {
     let reached_locked = pino::run_v1(&mut b, &data, false);
     kani::cover!(reached_locked, "a locked position can still add liquidity");
     assert!(reached_locked == reached_unlocked);
+}
+
+// ------------------------------------------------------------------------------------------------
+// Anchor handler level: generated account validation (`try_accounts`) + handler, up to the first CPI.
+//
+// * `Pubkey::find_program_address` (sha256 + curve check) is replaced by an *unconstrained* result: the
+//   `seeds =` comparison may pass or fail for any account key, which over-approximates the real PDA check
+//   (every real execution is covered; the assertions are of the form `Ok ⇒ ...`).
+// * the CPI helpers are replaced by recorders that return Ok.
+mod anchor_h {
+    use super::*;
+    use anchor_lang::prelude::{Context, Program, Signer, UncheckedAccount};
+    use anchor_lang::Result as AResult;
+    use anchor_spl::token::{Mint, Token, TokenAccount};
+
+    pub fn stub_find_program_address(_seeds: &[&[u8]], _program_id: &Pubkey) -> (Pubkey, u8) {
+        (Pubkey::new_from_array(kani::any()), kani::any())
+    }
+
+    /// Rent sysvar syscall: mainnet parameters (3480 lamports/byte-year, threshold 2.0)
+    pub fn stub_rent_get() -> core::result::Result<anchor_lang::prelude::Rent, anchor_lang::prelude::ProgramError> {
+        Ok(anchor_lang::prelude::Rent::default())
+    }
+    /// Clock sysvar syscall: arbitrary timestamp
+    pub static mut NOW: i64 = 0;
+    pub fn stub_clock_get() -> core::result::Result<anchor_lang::prelude::Clock, anchor_lang::prelude::ProgramError> {
+        let mut c = anchor_lang::prelude::Clock::default();
+        c.unix_timestamp = unsafe { NOW };
+        Ok(c)
+    }
+    pub fn stub_burn_and_close_user_position_token_2022<'info>(
+        _token_authority: &Signer<'info>,
+        _receiver: &UncheckedAccount<'info>,
+        _position_mint: &anchor_lang::prelude::InterfaceAccount<'info, anchor_spl::token_interface::Mint>,
+        _position_token_account: &anchor_lang::prelude::InterfaceAccount<'info, anchor_spl::token_interface::TokenAccount>,
+        _token_2022_program: &Program<'info, anchor_spl::token_2022::Token2022>,
+        _position: &Account<'info, Position>,
+        _position_seeds: &[&[u8]],
+    ) -> AResult<()> {
+        unsafe {
+            CPI_REACHED = true;
+        }
+        Ok(())
+    }
+    pub fn stub_freeze_user_position_token_2022<'info>(
+        _position_mint: &anchor_lang::prelude::InterfaceAccount<'info, anchor_spl::token_interface::Mint>,
+        _position_token_account: &anchor_lang::prelude::InterfaceAccount<'info, anchor_spl::token_interface::TokenAccount>,
+        _token_2022_program: &Program<'info, anchor_spl::token_2022::Token2022>,
+        _position: &Account<'info, Position>,
+        _position_seeds: &[&[u8]],
+    ) -> AResult<()> {
+        unsafe {
+            CPI_REACHED = true;
+        }
+        Ok(())
+    }
+
+    pub static mut CPI_REACHED: bool = false;
+    pub fn stub_burn_and_close_user_position_token<'info>(
+        _token_authority: &Signer<'info>,
+        _receiver: &UncheckedAccount<'info>,
+        _position_mint: &Account<'info, Mint>,
+        _position_token_account: &Account<'info, TokenAccount>,
+        _token_program: &Program<'info, Token>,
+    ) -> AResult<()> {
+        unsafe {
+            CPI_REACHED = true;
+        }
+        Ok(())
+    }
+}
+
+// Handler-level harnesses: what C18 quantifies over is the position state (liquidity, owed amounts, range,
+// checkpoints), the lock state, signer flags, token amounts and bundle indexes. Account *addresses* only
+// matter through "equal / not equal" (address-matching is property C04), so each address-valued field is a
+// symbolic choice between the expected address and a different one instead of 32 free bytes
+// (measured: 32-byte symbolic keys make these harnesses 3.6 M variables / > 15 min).
+const K_AUTH: [u8; 32] = [11u8; 32];
+const K_OTHER: [u8; 32] = [12u8; 32];
+const K_RECV: [u8; 32] = [13u8; 32];
+const K_POS: [u8; 32] = [14u8; 32];
+const K_MINT: [u8; 32] = [15u8; 32];
+const K_TA: [u8; 32] = [16u8; 32];
+const K_WP: [u8; 32] = [17u8; 32];
+const K_BUNDLE: [u8; 32] = [18u8; 32];
+const K_BUNDLE_MINT: [u8; 32] = [19u8; 32];
+const K_FUNDER: [u8; 32] = [20u8; 32];
+const K_LOCK: [u8; 32] = [21u8; 32];
+fn pick(expected: [u8; 32]) -> [u8; 32] {
+    if kani::any() { expected } else { K_OTHER }
+}
+/// all numeric Position fields symbolic; whirlpool / mint = expected address or another one
+fn any_pos_fields_for(whirlpool: [u8; 32], mint: [u8; 32]) -> PosFields {
+    let mut f = any_pos_fields_numeric();
+    f.whirlpool = pick(whirlpool);
+    f.mint = pick(mint);
+    f
+}
+fn any_pos_fields_numeric() -> PosFields {
+    PosFields {
+        whirlpool: [0; 32], mint: [0; 32], liquidity: kani::any(), lo: kani::any(), hi: kani::any(),
+        cp_a: kani::any(), owed_a: kani::any(), cp_b: kani::any(), owed_b: kani::any(),
+        r_cp: kani::any(), r_owed: kani::any(),
+    }
+}
+/// token account: amount, delegated amount, state byte, delegate flag symbolic; mint/owner/delegate = choice
+fn any_tok_fields_for(mint: [u8; 32], authority: [u8; 32]) -> TokFields {
+    TokFields {
+        mint: pick(mint), owner: pick(authority), amount: kani::any(), has_delegate: kani::any(),
+        delegate: pick(authority), delegated: kani::any(), state: kani::any(),
+    }
+}
+
+/// close_position (SPL Token positions), ClosePosition::try_accounts + handler with the burn/close CPI recorded: Ok ⇒ the position held no liquidity, no owed fees, no owed rewards (and the CPI is issued only then). Symbolic signer flag, all numeric Position fields, token account amount/delegate/delegated amount; address-valued fields: expected address or another one.
+// @verif prop=C18 tier=thorough timeout=900
+#[kani::proof]
+#[kani::unwind(40)]
+#[kani::stub(alloc::fmt::format, stub_format)]
+#[kani::stub(<anchor_lang::error::Error as core::convert::From<::whirlpool::errors::ErrorCode>>::from, stub_err_from_code)]
+#[kani::stub(<anchor_lang::error::Error as core::convert::From<anchor_lang::error::ErrorCode>>::from, stub_err_from_anchor_code)]
+#[kani::stub(anchor_lang::prelude::Pubkey::find_program_address, anchor_h::stub_find_program_address)]
+#[kani::stub(::whirlpool::util::token::burn_and_close_user_position_token, anchor_h::stub_burn_and_close_user_position_token)]
+fn c18_close_position_handler() {
+    use anchor_lang::prelude::Context;
+    use ::whirlpool::instructions::ClosePosition;
+    use std::collections::BTreeSet;
+    let f = any_pos_fields_for(K_WP, K_MINT);
+    let t = any_tok_fields_for(K_MINT, K_AUTH);
+    let auth_signer: bool = kani::any();
+    kani::assume(t.state == 1); // SPL Token positions are never frozen by the program (locking is Token-2022 only)
+    let auth_key = Pubkey::new_from_array(K_AUTH);
+    let recv_key = Pubkey::new_from_array(K_RECV);
+    let pos_key = Pubkey::new_from_array(K_POS);
+    let mint_key = Pubkey::new_from_array(K_MINT);
+    let ta_key = Pubkey::new_from_array(K_TA);
+    let (ta_mint, ta_amount) = (t.mint, t.amount);
+
+    let program_id = ::whirlpool::ID;
+    let token_pid = anchor_spl::token::ID;
+    let sys = Pubkey::default();
+    let bpf = Pubkey::new_from_array([2u8; 32]);
+
+    let (mut l0, mut l1, mut l2, mut l3, mut l4, mut l5) = (1u64, 1u64, 1u64, 1u64, 1u64, 1u64);
+    let mut d_auth = [0u8; 0];
+    let mut d_recv = [0u8; 0];
+    let mut d_pos = f.bytes();
+    let mut d_mint = mint_bytes(None, 1, 0);
+    let mut d_ta = t.bytes();
+    let mut d_tp = [0u8; 0];
+    let accounts = [
+        AccountInfo::new(&auth_key, auth_signer, false, &mut l0, &mut d_auth[..], &sys, false, 0),
+        AccountInfo::new(&recv_key, false, true, &mut l1, &mut d_recv[..], &sys, false, 0),
+        AccountInfo::new(&pos_key, false, true, &mut l2, &mut d_pos[..], &program_id, false, 0),
+        AccountInfo::new(&mint_key, false, true, &mut l3, &mut d_mint[..], &token_pid, false, 0),
+        AccountInfo::new(&ta_key, false, true, &mut l4, &mut d_ta[..], &token_pid, false, 0),
+        AccountInfo::new(&token_pid, false, false, &mut l5, &mut d_tp[..], &bpf, true, 0),
+    ];
+    let mut slice: &[AccountInfo] = &accounts;
+    let mut bumps = <ClosePosition as anchor_lang::Bumps>::Bumps::default();
+    let mut reallocs = BTreeSet::new();
+    let r = <ClosePosition as anchor_lang::Accounts<_>>::try_accounts(&program_id, &mut slice, &[], &mut bumps, &mut reallocs);
+    let mut ok = false;
+    if let Ok(mut accs) = r {
+        let ctx = Context::new(&program_id, &mut accs, &[], bumps);
+        let h = ::whirlpool::instructions::close_position::handler(ctx);
+        ok = h.is_ok();
+        core::mem::forget(h);
+        core::mem::forget(accs);
+    } else {
+        core::mem::forget(r);
+    }
+    let cpi = unsafe { anchor_h::CPI_REACHED };
+    kani::cover!(ok, "an empty position can be closed");
+    kani::cover!(!ok && f.liquidity == 0 && f.owed_a == 0 && f.owed_b == 0, "owed rewards alone keep it open");
+    assert!(ok == cpi, "token burnt/closed exactly in the accepted runs");
+    if ok {
+        assert!(f.empty(), "closed only when empty");
+        assert!(auth_signer);
+        assert!(ta_amount == 1 && ta_mint == f.mint && mint_key.to_bytes() == f.mint);
+    }
+}
+
+/// symbolic SPL token account contents (mint, owner, amount, delegate, state byte)
+#[derive(Clone, Copy)]
+struct TokFields {
+    mint: [u8; 32],
+    owner: [u8; 32],
+    amount: u64,
+    has_delegate: bool,
+    delegate: [u8; 32],
+    delegated: u64,
+    state: u8,
+}
+fn any_tok_fields() -> TokFields {
+    TokFields {
+        mint: kani::any(), owner: kani::any(), amount: kani::any(), has_delegate: kani::any(),
+        delegate: kani::any(), delegated: kani::any(), state: kani::any(),
+    }
+}
+impl TokFields {
+    fn bytes(&self) -> [u8; 165] {
+        let mut d = token_account_bytes(self.mint, self.owner, self.amount, self.state);
+        if self.has_delegate {
+            d[72] = 1;
+            d[76..108].copy_from_slice(&self.delegate);
+        }
+        d[121..129].copy_from_slice(&self.delegated.to_le_bytes());
+        d
+    }
+}
+
+/// close_position_with_token_extensions, try_accounts + handler with the burn/close CPIs recorded: Ok ⇒ position empty ∧ position token account not frozen (not locked); the CPI is issued exactly in the accepted runs. Symbolic signer flag, all numeric Position fields, token account amount/delegate/delegated amount/state byte; address-valued fields: expected address or another one.
+// @verif prop=C18 tier=thorough timeout=900
+#[kani::proof]
+#[kani::unwind(40)]
+#[kani::stub(alloc::fmt::format, stub_format)]
+#[kani::stub(<anchor_lang::error::Error as core::convert::From<::whirlpool::errors::ErrorCode>>::from, stub_err_from_code)]
+#[kani::stub(<anchor_lang::error::Error as core::convert::From<anchor_lang::error::ErrorCode>>::from, stub_err_from_anchor_code)]
+#[kani::stub(anchor_lang::prelude::Pubkey::find_program_address, anchor_h::stub_find_program_address)]
+#[kani::stub(::whirlpool::util::token_2022::burn_and_close_user_position_token_2022, anchor_h::stub_burn_and_close_user_position_token_2022)]
+fn c18_close_position_with_token_extensions_handler() {
+    use anchor_lang::prelude::Context;
+    use ::whirlpool::instructions::ClosePositionWithTokenExtensions as Accs;
+    use std::collections::BTreeSet;
+    let f = any_pos_fields_for(K_WP, K_MINT);
+    let t = any_tok_fields_for(K_MINT, K_AUTH);
+    let auth_signer: bool = kani::any();
+    let auth_key = Pubkey::new_from_array(K_AUTH);
+    let recv_key = Pubkey::new_from_array(K_RECV);
+    let pos_key = Pubkey::new_from_array(K_POS);
+    let mint_key = Pubkey::new_from_array(K_MINT);
+    let ta_key = Pubkey::new_from_array(K_TA);
+
+    let program_id = ::whirlpool::ID;
+    let t22 = anchor_spl::token_2022::ID;
+    let sys = Pubkey::default();
+    let bpf = Pubkey::new_from_array([2u8; 32]);
+    let (mut l0, mut l1, mut l2, mut l3, mut l4, mut l5) = (1u64, 1u64, 1u64, 1u64, 1u64, 1u64);
+    let mut d_auth = [0u8; 0];
+    let mut d_recv = [0u8; 0];
+    let mut d_pos = f.bytes();
+    let mut d_mint = mint_bytes(None, 1, 0);
+    let mut d_ta = t.bytes();
+    let mut d_tp = [0u8; 0];
+    let accounts = [
+        AccountInfo::new(&auth_key, auth_signer, false, &mut l0, &mut d_auth[..], &sys, false, 0),
+        AccountInfo::new(&recv_key, false, true, &mut l1, &mut d_recv[..], &sys, false, 0),
+        AccountInfo::new(&pos_key, false, true, &mut l2, &mut d_pos[..], &program_id, false, 0),
+        AccountInfo::new(&mint_key, false, true, &mut l3, &mut d_mint[..], &t22, false, 0),
+        AccountInfo::new(&ta_key, false, true, &mut l4, &mut d_ta[..], &t22, false, 0),
+        AccountInfo::new(&t22, false, false, &mut l5, &mut d_tp[..], &bpf, true, 0),
+    ];
+    let mut slice: &[AccountInfo] = &accounts;
+    let mut bumps = <Accs as anchor_lang::Bumps>::Bumps::default();
+    let mut reallocs = BTreeSet::new();
+    let r = <Accs as anchor_lang::Accounts<_>>::try_accounts(&program_id, &mut slice, &[], &mut bumps, &mut reallocs);
+    let mut ok = false;
+    if let Ok(mut accs) = r {
+        let ctx = Context::new(&program_id, &mut accs, &[], bumps);
+        let h = ::whirlpool::instructions::close_position_with_token_extensions::handler(ctx);
+        ok = h.is_ok();
+        core::mem::forget(h);
+        core::mem::forget(accs);
+    } else {
+        core::mem::forget(r);
+    }
+    let cpi = unsafe { anchor_h::CPI_REACHED };
+    kani::cover!(ok, "an empty unlocked position can be closed");
+    kani::cover!(!ok && f.empty() && t.state == FROZEN && t.amount == 1 && auth_signer, "locked position refused");
+    assert!(ok == cpi, "token burnt/closed exactly in the accepted runs");
+    if ok {
+        assert!(f.empty(), "closed only when empty");
+        assert!(t.state != FROZEN, "a locked position cannot be closed");
+        assert!(auth_signer);
+        assert!(t.amount == 1 && t.mint == f.mint && mint_key.to_bytes() == f.mint);
+    }
+}
+
+/// close_bundled_position, try_accounts + handler: Ok ⇒ the bundled position was empty ∧ its bitmap bit was set and is now clear, no other bit changed. Symbolic signer flag, all numeric Position fields, 256-bit bitmap, bundle index (instruction data and handler argument), token account amount/delegate; address-valued fields: expected address or another one.
+// @verif prop=C18 tier=thorough timeout=900
+#[kani::proof]
+#[kani::unwind(40)]
+#[kani::stub(alloc::fmt::format, stub_format)]
+#[kani::stub(<anchor_lang::error::Error as core::convert::From<::whirlpool::errors::ErrorCode>>::from, stub_err_from_code)]
+#[kani::stub(<anchor_lang::error::Error as core::convert::From<anchor_lang::error::ErrorCode>>::from, stub_err_from_anchor_code)]
+#[kani::stub(anchor_lang::prelude::Pubkey::find_program_address, anchor_h::stub_find_program_address)]
+fn c18_close_bundled_position_handler() {
+    use anchor_lang::prelude::Context;
+    use ::whirlpool::instructions::CloseBundledPosition as Accs;
+    use std::collections::BTreeSet;
+    let f = any_pos_fields_for(K_WP, K_BUNDLE_MINT);
+    let t = any_tok_fields_for(K_BUNDLE_MINT, K_AUTH);
+    let bundle_mint: [u8; 32] = pick(K_BUNDLE_MINT);
+    let bm: [u8; 32] = kani::any();
+    let index: u16 = kani::any();
+    let auth_signer: bool = kani::any();
+    let auth_key = Pubkey::new_from_array(K_AUTH);
+    let recv_key = Pubkey::new_from_array(K_RECV);
+    let pos_key = Pubkey::new_from_array(K_POS);
+    let bundle_key = Pubkey::new_from_array(K_BUNDLE);
+    let ta_key = Pubkey::new_from_array(K_TA);
+    kani::assume(t.state == 1); // SPL Token account, initialized (bundle tokens are never frozen by the program)
+
+    let program_id = ::whirlpool::ID;
+    let token_pid = anchor_spl::token::ID;
+    let sys = Pubkey::default();
+    let (mut l0, mut l1, mut l2, mut l3, mut l4) = (1u64, 1u64, 1u64, 1u64, 1u64);
+    let mut d_pos = f.bytes();
+    let mut d_bundle = [0u8; 136];
+    d_bundle[..8].copy_from_slice(PositionBundle::DISCRIMINATOR);
+    d_bundle[8..40].copy_from_slice(&bundle_mint);
+    d_bundle[40..72].copy_from_slice(&bm);
+    let mut d_ta = t.bytes();
+    let mut d_auth = [0u8; 0];
+    let mut d_recv = [0u8; 0];
+    let accounts = [
+        AccountInfo::new(&pos_key, false, true, &mut l0, &mut d_pos[..], &program_id, false, 0),
+        AccountInfo::new(&bundle_key, false, true, &mut l1, &mut d_bundle[..], &program_id, false, 0),
+        AccountInfo::new(&ta_key, false, false, &mut l2, &mut d_ta[..], &token_pid, false, 0),
+        AccountInfo::new(&auth_key, auth_signer, false, &mut l3, &mut d_auth[..], &sys, false, 0),
+        AccountInfo::new(&recv_key, false, true, &mut l4, &mut d_recv[..], &sys, false, 0),
+    ];
+    let ix = index.to_le_bytes();
+    let mut slice: &[AccountInfo] = &accounts;
+    let mut bumps = <Accs as anchor_lang::Bumps>::Bumps::default();
+    let mut reallocs = BTreeSet::new();
+    let r = <Accs as anchor_lang::Accounts<_>>::try_accounts(&program_id, &mut slice, &ix, &mut bumps, &mut reallocs);
+    let mut ok = false;
+    let mut after = bm;
+    if let Ok(mut accs) = r {
+        let ctx = Context::new(&program_id, &mut accs, &[], bumps);
+        let h = ::whirlpool::instructions::close_bundled_position::handler(ctx, index);
+        ok = h.is_ok();
+        after = accs.position_bundle.position_bitmap;
+        core::mem::forget(h);
+        core::mem::forget(accs);
+    } else {
+        core::mem::forget(r);
+    }
+    kani::cover!(ok, "an empty bundled position can be closed");
+    if ok {
+        assert!(f.empty(), "closed only when empty");
+        assert!(index < 256);
+        assert!(bit(&bm, index) && !bit(&after, index), "its bit was set and is cleared");
+        assert!(popcount_diff(&bm, &after) == 1, "no other bundled position is touched");
+        assert!(auth_signer);
+        assert!(t.amount == 1 && t.mint == f.mint && t.mint == bundle_mint);
+    } else {
+        assert!(after == bm || popcount_diff(&bm, &after) <= 1);
+    }
+}
+
+/// reset_position_range, try_accounts + handler (Rent sysvar = mainnet parameters, top-up transfer CPI recorded): Ok ⇒ position was empty (hence, by the lock rule "only positions with liquidity can be locked", not a locked one) ∧ new range differs ∧ position afterwards holds the new range with zeroed checkpoints. Symbolic signer flags, numeric Position fields, spacing ∈ {64, 32896} (the function-level harness covers the larger set), new range, token account amount/delegate/state (Token-2022 account), address-valued fields: expected or other; position lamports (>= rent exemption of the position itself, a runtime guarantee). Peak memory ~12-16 GB, hence `large`.
+// @verif prop=C18 tier=thorough timeout=900 large
+#[kani::proof]
+#[kani::unwind(40)]
+#[kani::stub(alloc::fmt::format, stub_format)]
+#[kani::stub(<anchor_lang::error::Error as core::convert::From<::whirlpool::errors::ErrorCode>>::from, stub_err_from_code)]
+#[kani::stub(<anchor_lang::error::Error as core::convert::From<anchor_lang::error::ErrorCode>>::from, stub_err_from_anchor_code)]
+#[kani::stub(<anchor_lang::prelude::Rent as anchor_lang::prelude::SolanaSysvar>::get, anchor_h::stub_rent_get)]
+#[kani::stub(solana_program::program::invoke_signed, cpi_log::stub_invoke_signed)]
+fn c18_reset_position_range_handler() {
+    use anchor_lang::prelude::Context;
+    use ::whirlpool::instructions::ResetPositionRange as Accs;
+    use std::collections::BTreeSet;
+    let f = any_pos_fields_for(K_WP, K_MINT);
+    let t = any_tok_fields_for(K_MINT, K_AUTH);
+    let s: u16 = if kani::any() { 64 } else { 32896 };
+    let lo: i32 = kani::any();
+    let hi: i32 = kani::any();
+    let funder_signer: bool = kani::any();
+    let auth_signer: bool = kani::any();
+    let funder_key = Pubkey::new_from_array(K_FUNDER);
+    let auth_key = Pubkey::new_from_array(K_AUTH);
+    let wp_key = Pubkey::new_from_array(K_WP);
+    let pos_key = Pubkey::new_from_array(K_POS);
+    let ta_key = Pubkey::new_from_array(K_TA);
+    let pos_lamports: u64 = kani::any();
+    // runtime guarantee: an existing account is rent exempt for its own size ((128 + 216) * 3480 * 2)
+    kani::assume(pos_lamports >= 2_394_240);
+
+    let program_id = ::whirlpool::ID;
+    // position token account owned by Token-2022 (the lockable kind); a symbolic owner program makes symex format
+    // public keys (bs58) on the wrong-owner error path
+    let tok = anchor_spl::token_2022::ID;
+    let sys = Pubkey::default();
+    let native = Pubkey::new_from_array([3u8; 32]);
+    let (mut l0, mut l1, mut l2, mut l3, mut l4, mut l5) = (10_000_000u64, 1u64, 1u64, pos_lamports, 1u64, 1u64);
+    let mut d_funder = [0u8; 0];
+    let mut d_auth = [0u8; 0];
+    let mut d_wp = wp_bytes(s);
+    let mut d_pos = f.bytes();
+    let mut d_ta = t.bytes();
+    let mut d_sys = [0u8; 0];
+    let accounts = [
+        AccountInfo::new(&funder_key, funder_signer, true, &mut l0, &mut d_funder[..], &sys, false, 0),
+        AccountInfo::new(&auth_key, auth_signer, false, &mut l1, &mut d_auth[..], &sys, false, 0),
+        AccountInfo::new(&wp_key, false, false, &mut l2, &mut d_wp[..], &program_id, false, 0),
+        AccountInfo::new(&pos_key, false, true, &mut l3, &mut d_pos[..], &program_id, false, 0),
+        AccountInfo::new(&ta_key, false, false, &mut l4, &mut d_ta[..], &tok, false, 0),
+        AccountInfo::new(&sys, false, false, &mut l5, &mut d_sys[..], &native, true, 0),
+    ];
+    let mut slice: &[AccountInfo] = &accounts;
+    let mut bumps = <Accs as anchor_lang::Bumps>::Bumps::default();
+    let mut reallocs = BTreeSet::new();
+    let r = <Accs as anchor_lang::Accounts<_>>::try_accounts(&program_id, &mut slice, &[], &mut bumps, &mut reallocs);
+    let mut ok = false;
+    let mut post = f.anchor();
+    if let Ok(mut accs) = r {
+        let ctx = Context::new(&program_id, &mut accs, &[], bumps);
+        let h = ::whirlpool::instructions::reset_position_range::handler(ctx, lo, hi);
+        ok = h.is_ok();
+        post = (**accs.position).clone();
+        core::mem::forget(h);
+        core::mem::forget(accs);
+    } else {
+        core::mem::forget(r);
+    }
+    kani::cover!(ok, "an empty position can be re-ranged");
+    kani::cover!(ok && unsafe { cpi_log::N } == 1, "with a rent top-up");
+    let mut expect = f;
+    if ok {
+        assert!(f.empty(), "re-ranged only when empty");
+        assert!(!(lo == f.lo && hi == f.hi), "to a different range");
+        assert!(spec_valid_range(lo, hi, s), "that is valid for the pool");
+        assert!(auth_signer && funder_signer);
+        assert!(f.whirlpool == wp_key.to_bytes(), "position belongs to the pool whose spacing is used");
+        assert!(t.amount == 1 && t.mint == f.mint);
+        expect.lo = lo;
+        expect.hi = hi;
+        expect.cp_a = 0;
+        expect.cp_b = 0;
+        expect.r_cp = [0; 3];
+    }
+    assert!(same_as_fields(&post, &expect));
+}
+
+/// lock_position handler on a hand-built LockPosition (its `init` + `seeds` constraints call the System program / sha256, so the generated try_accounts is not run; the three `constraint =` attributes of position_token_account — amount == 1, mint == position.position_mint, !is_frozen() — are transcribed as the precondition; signer fields exist only for signers): Ok ⇒ position liquidity > 0 ∧ freeze CPI issued ∧ LockConfig records position, token owner, whirlpool, time; liquidity == 0 ⇒ PositionNotLockable without freezing. Symbolic numeric Position fields, token account owner/delegate choice, delegated amount, timestamp.
+// @verif prop=C18 tier=thorough timeout=900
+#[kani::proof]
+#[kani::unwind(40)]
+#[kani::stub(alloc::fmt::format, stub_format)]
+#[kani::stub(<anchor_lang::error::Error as core::convert::From<::whirlpool::errors::ErrorCode>>::from, stub_err_from_code)]
+#[kani::stub(<anchor_lang::error::Error as core::convert::From<anchor_lang::error::ErrorCode>>::from, stub_err_from_anchor_code)]
+#[kani::stub(<anchor_lang::prelude::Clock as anchor_lang::prelude::SolanaSysvar>::get, anchor_h::stub_clock_get)]
+#[kani::stub(::whirlpool::util::token_2022::freeze_user_position_token_2022, anchor_h::stub_freeze_user_position_token_2022)]
+fn c18_lock_position_handler() {
+    use anchor_lang::prelude::{Context, InterfaceAccount, Program, Signer};
+    use ::whirlpool::instructions::LockPosition;
+    use ::whirlpool::state::{LockConfig, LockType};
+    let f = any_pos_fields_for(K_WP, K_MINT);
+    let t = any_tok_fields_for(K_MINT, K_AUTH);
+    let now: i64 = kani::any();
+    // transcribed account constraints of LockPosition.position_token_account / has_one = whirlpool
+    kani::assume(t.amount == 1 && t.mint == f.mint && t.state == 1);
+    kani::assume(f.whirlpool == K_WP && f.mint == K_MINT);
+    unsafe {
+        anchor_h::NOW = now;
+    }
+    let program_id = ::whirlpool::ID;
+    let t22 = anchor_spl::token_2022::ID;
+    let sys = Pubkey::default();
+    let bpf = Pubkey::new_from_array([2u8; 32]);
+    let native = Pubkey::new_from_array([3u8; 32]);
+    let funder_key = Pubkey::new_from_array(K_FUNDER);
+    let auth_key = Pubkey::new_from_array(K_AUTH);
+    let pos_key = Pubkey::new_from_array(K_POS);
+    let mint_key = Pubkey::new_from_array(K_MINT);
+    let ta_key = Pubkey::new_from_array(K_TA);
+    let lock_key = Pubkey::new_from_array(K_LOCK);
+    let wp_key = Pubkey::new_from_array(K_WP);
+    let (mut l0, mut l1, mut l2, mut l3, mut l4, mut l5, mut l6, mut l7, mut l8) = (1u64, 1u64, 1u64, 1u64, 1u64, 1u64, 1u64, 1u64, 1u64);
+    let mut d_funder = [0u8; 0];
+    let mut d_auth = [0u8; 0];
+    let mut d_pos = f.bytes();
+    let mut d_mint = mint_bytes(None, 1, 0);
+    d_mint[46] = 1; // freeze authority present (position PDA)
+    d_mint[50..82].copy_from_slice(&K_POS);
+    let mut d_ta = t.bytes();
+    let mut d_lock = [0u8; 241]; // LockConfig::LEN, as created by `init`
+    let mut d_wp = wp_bytes(64);
+    let mut d_t22 = [0u8; 0];
+    let mut d_sys = [0u8; 0];
+    let funder_ai = AccountInfo::new(&funder_key, true, true, &mut l0, &mut d_funder[..], &sys, false, 0);
+    let auth_ai = AccountInfo::new(&auth_key, true, false, &mut l1, &mut d_auth[..], &sys, false, 0);
+    let pos_ai = AccountInfo::new(&pos_key, false, false, &mut l2, &mut d_pos[..], &program_id, false, 0);
+    let mint_ai = AccountInfo::new(&mint_key, false, false, &mut l3, &mut d_mint[..], &t22, false, 0);
+    let ta_ai = AccountInfo::new(&ta_key, false, true, &mut l4, &mut d_ta[..], &t22, false, 0);
+    let lock_ai = AccountInfo::new(&lock_key, false, true, &mut l5, &mut d_lock[..], &program_id, false, 0);
+    let wp_ai = AccountInfo::new(&wp_key, false, false, &mut l6, &mut d_wp[..], &program_id, false, 0);
+    let t22_ai = AccountInfo::new(&t22, false, false, &mut l7, &mut d_t22[..], &bpf, true, 0);
+    let sys_ai = AccountInfo::new(&sys, false, false, &mut l8, &mut d_sys[..], &native, true, 0);
+    let mut accs = LockPosition {
+        funder: Signer::try_from(&funder_ai).unwrap(),
+        position_authority: Signer::try_from(&auth_ai).unwrap(),
+        position: Account::try_from(&pos_ai).unwrap(),
+        position_mint: InterfaceAccount::try_from(&mint_ai).unwrap(),
+        position_token_account: InterfaceAccount::try_from(&ta_ai).unwrap(),
+        lock_config: Box::new(Account::try_from_unchecked(&lock_ai).unwrap()),
+        whirlpool: Account::try_from(&wp_ai).unwrap(),
+        token_2022_program: Program::try_from(&t22_ai).unwrap(),
+        system_program: Program::try_from(&sys_ai).unwrap(),
+    };
+    let bumps = <LockPosition as anchor_lang::Bumps>::Bumps::default();
+    let ctx = Context::new(&program_id, &mut accs, &[], bumps);
+    let h = ::whirlpool::instructions::lock_position::handler(ctx, LockType::Permanent);
+    let out = match &h { Ok(()) => Ok(()), Err(e) => Err(acode(e)) };
+    core::mem::forget(h);
+    let frozen_by_cpi = unsafe { anchor_h::CPI_REACHED };
+    let lc_position = accs.lock_config.position;
+    let lc_owner = accs.lock_config.position_owner;
+    let lc_wp = accs.lock_config.whirlpool;
+    let lc_time = accs.lock_config.locked_timestamp;
+    core::mem::forget(accs);
+    kani::cover!(out.is_ok(), "a position with liquidity can be locked");
+    kani::cover!(out == Err(ecode(ErrorCode::PositionNotLockable)), "an empty position cannot");
+    assert!(out.is_ok() == frozen_by_cpi, "frozen exactly in the accepted runs");
+    if out.is_ok() {
+        assert!(f.liquidity > 0, "only positions with liquidity can be locked");
+        assert!(lc_position == pos_key && lc_owner.to_bytes() == t.owner && lc_wp == wp_key);
+        assert!(lc_time == now as u64);
+    }
+    if f.liquidity == 0 {
+        assert!(out.is_err());
+    }
 }
